@@ -10,6 +10,7 @@ def _fs_units():
         for t in (0, 1):
             cfgs.append(("char", n, 2, t, False, 4))
     cfgs += [("char16_t", 8, 0, 0, False, 3), ("char16_t", 8, 0, 1, False, 3), ("char16_t", 300, 0, 0, False, 2)]
+    cfgs += [("wchar_t", 8, 0, 0, False, 2), ("wchar_t", 8, 0, 1, False, 2), ("wchar_t", 300, 0, 1, False, 2), ("char32_t", 16, 0, 1, True, 1)]
     cfgs += [("char", 254, 0, 1, True, 2), ("char", 55, 0, 0, True, 2), ("char", 300, 2, 1, True, 2), ("char16_t", 70000, 1, 1, True, 1)]
     lay = ["packed", "sizefield", "strlen"]
     units = [dict(src="fstring_main.cpp")]
